@@ -73,13 +73,14 @@ fn lookalike(b: &mut B, ch: &mut Chooser, acc: &mut Acc, in_value: bool) {
     let c = W::from_u64(*ch.pick(&[0u64, 1, 2, 3, 5, 7, 11, 42, 77, 9_999]));
     // the mapping hash in a value is a known finding: keep it rare there so that the search goes on
     let pick = if in_value {
-        match ch.below(12) {
+        match ch.below(14) {
             0 => 0,
             1..=6 => 2,
+            12 | 13 => 4,
             _ => 3,
         }
     } else {
-        ch.below(4)
+        ch.below(5)
     };
     match pick {
         0 | 1 => {
@@ -102,6 +103,27 @@ fn lookalike(b: &mut B, ch: &mut Chooser, acc: &mut Acc, in_value: bool) {
             b.emit(asm::SHA3);
             if ch.chance(1, 3) {
                 b.push(W::from_u64(ch.below(4) as u64));
+                b.emit(asm::ADD);
+            }
+        }
+        4 => {
+            // the hash of constant text (a role or a proxy-slot name), possibly plus a small constant
+            if in_value {
+                acc.label("lookalike:text-hash-in-value");
+            }
+            let n = ch.range(4, 32);
+            let mut bytes = [0u8; 32];
+            for x in bytes.iter_mut().take(n) {
+                *x = 0x41 + ch.below(26) as u8;
+            }
+            b.push(W::from_be_slice(&bytes));
+            b.push(W::ZERO);
+            b.emit(asm::MSTORE);
+            b.push(W::from_u64(32));
+            b.push(W::ZERO);
+            b.emit(asm::SHA3);
+            if ch.chance(1, 3) {
+                b.push(W::from_u64(ch.range(1, 3) as u64));
                 b.emit(asm::ADD);
             }
         }
@@ -454,6 +476,7 @@ pub fn check_code(code: &[u8], class: &str, lookalike_present: bool, acc: &mut A
         },
     );
     let in_domain = rr.complete
+        && !rr.prov_overflow
         && rr.paths.len() <= cfg.forks
         && rr.paths.iter().all(|p| !matches!(p.end, End::Budget) && p.gas_error_at.is_none() && !p.prov_imprecise);
     if in_domain {
@@ -565,10 +588,55 @@ fn value_constants(run: &subj::VmRun) -> BTreeSet<W> {
     out
 }
 
+/// A scratch word at a symbolic offset (a free-memory pointer that depends on the call data size) is
+/// stored to several times; a look-alike constant passes through it but is overwritten before the word
+/// is hashed into the location of an array element
+fn g_symbolic_scratch(ch: &mut Chooser, acc: &mut Acc) -> B {
+    let mut b = B::new();
+    let real = W::from_u64(*ch.pick(&[2u64, 3, 5, 9, 12]));
+    let look = W::from_u64(*ch.pick(&[1u64, 7, 11, 42, 77]));
+    // mstore(0x40, 0x80 + calldatasize)
+    b.push(W::from_u64(0x80));
+    b.emit(asm::CALLDATASIZE);
+    b.emit(asm::ADD);
+    b.push(W::from_u64(0x40));
+    b.emit(asm::MSTORE);
+    let store = |b: &mut B, w: W| {
+        b.push(w);
+        b.push(W::from_u64(0x40));
+        b.emit(asm::MLOAD);
+        b.emit(asm::MSTORE);
+    };
+    let order: &[bool] = *ch.pick(&[&[true, false, true][..], &[false, true], &[false, false, true], &[true, false, false, true], &[true]]);
+    for is_real in order {
+        store(&mut b, if *is_real { real } else { look });
+    }
+    acc.label("symbolic-scratch");
+    // keccak(mem[ptr .. ptr+32]) + index
+    b.push(W::from_u64(0x20));
+    b.push(W::from_u64(0x40));
+    b.emit(asm::MLOAD);
+    b.emit(asm::SHA3);
+    b.push(W::from_u64(4));
+    b.emit(asm::CALLDATALOAD);
+    b.emit(asm::ADD);
+    if ch.chance(1, 2) {
+        b.emit(asm::SLOAD);
+        b.emit(asm::POP);
+    } else {
+        b.emit(asm::CALLVALUE);
+        b.emit(asm::SWAP1);
+        b.emit(asm::SSTORE);
+    }
+    b.emit(asm::STOP);
+    b
+}
+
 fn run_shard(ctx: &ShardCtx, acc: &mut Acc) {
     let tier = ctx.tier;
     drive(ctx, "programs", tier.pick(25_000, 300_000), 900, acc, &|ch, acc| {
-        let (class, code) = match ch.below(14) {
+        let (class, code) = match ch.below(15) {
+            14 => ("symbolic-scratch", g_symbolic_scratch(ch, acc).code()),
             0..=3 => ("storage-free", g_storage_free(ch, acc).code()),
             4..=8 => ("mixed", g_mixed(ch, acc).code()),
             9 | 10 => ("call-clobber", g_call_clobber(ch, acc).code()),
